@@ -256,6 +256,8 @@ def run_ops(ops):
                             mk = 'collapse'
                             for k in [k for k in w.views if k[0] == id(s)]: del w.views[k]
                         elif tuple(tmo._phase.phase_tuple(set(ps))) != tuple(s.phases): mk = 'resets'
+                    elif len(set(ps)) > 1:
+                        mk = 'rebind'       # single -> multi: a new, empty `_streams` dict is bound
                     s.phases = ps
                 elif op == 'setflow':
                     s.imol.data[int(t[2]) % s.imol.data.shape[-1]] = float(t[3]) if s.imol.data.ndim == 1 else float(t[3])
